@@ -28,7 +28,7 @@ ASSUMPTIONS = [
     'crash points are Python-level I/O calls; kernel-level reordering / torn sectors / power loss after rename are not modelled',
     'a datapackage.json that does not parse as JSON is treated as absent (the statement speaks of a parseable descriptor)',
 ]
-BUDGET = {'quick': dict(examples=32, shards=8, seconds=80, chunk=6),
+BUDGET = {'quick': dict(examples=32, shards=16, seconds=80, chunk=6),
           'thorough': dict(examples=1600, shards=16, seconds=1500, chunk=10)}
 
 
